@@ -16,6 +16,7 @@ import (
 	"strings"
 	"sync"
 	"sync/atomic"
+	"syscall"
 	"time"
 )
 
@@ -402,6 +403,7 @@ func trimStack(b []byte) string {
 func (c *Ctx) watchdog(progressFile string, stop chan struct{}) {
 	last := atomic.LoadUint64(&c.progress)
 	lastChange := time.Now()
+	cpuAtChange := processCPU()
 	limit := 120 * time.Second
 	if s := os.Getenv("VERIF_WATCHDOG_S"); s != "" {
 		if v, err := strconv.Atoi(s); err == nil {
@@ -420,11 +422,16 @@ func (c *Ctx) watchdog(progressFile string, stop chan struct{}) {
 		if cur != last {
 			last = cur
 			lastChange = time.Now()
+			cpuAtChange = processCPU()
 			continue
 		}
 		var ms runtime.MemStats
 		runtime.ReadMemStats(&ms)
-		stuck := time.Since(lastChange) > limit
+		// A case counts as stuck when it made no progress for the limit AND the process was
+		// actually running for at least half of that time (a starved or suspended process is not
+		// a hanging case), or, for cases that block without using the CPU, after five limits.
+		idle := time.Since(lastChange)
+		stuck := idle > limit && processCPU()-cpuAtChange > limit/2 || idle > 5*limit
 		fat := ms.HeapAlloc > 6<<30
 		if stuck || fat {
 			var in []byte
@@ -441,6 +448,15 @@ func (c *Ctx) watchdog(progressFile string, stop chan struct{}) {
 			os.Exit(3)
 		}
 	}
+}
+
+// processCPU returns the user+system CPU time this process has used.
+func processCPU() time.Duration {
+	var ru syscall.Rusage
+	if syscall.Getrusage(syscall.RUSAGE_SELF, &ru) != nil {
+		return 0
+	}
+	return time.Duration(ru.Utime.Nano() + ru.Stime.Nano())
 }
 
 func writeResult(r *Result, out string) int {
@@ -576,7 +592,9 @@ func RunCheck(id, tier string) int {
 				}
 				cmd.Stdout = lf
 				cmd.Stderr = lf
-				procs := 1
+				// Most workers run single-threaded (the workloads are sequential); some get 2, 3 or
+				// 5 Ps, so that code which sizes its work by GOMAXPROCS does not always see 1.
+				procs := []int{1, 1, 3, 1, 2, 1, 1, 5}[s%8]
 				if ch.WorkerProcs > 0 {
 					procs = ch.WorkerProcs
 				}
@@ -587,13 +605,27 @@ func RunCheck(id, tier string) int {
 			}(s)
 		}
 		wg.Wait()
-		for _, r := range results {
+		// Watchdog exits are re-run in isolation to decide; the re-runs go in parallel (each in
+		// its own process with its own replay file), so that a tree with a genuine hang does not
+		// cost shards x 120 s.
+		verdicts := make([]string, len(results))
+		var iwg sync.WaitGroup
+		for i, r := range results {
+			if sb, e := os.ReadFile(r.out + ".progress.stuck"); e == nil && r.err != nil {
+				iwg.Add(1)
+				go func(i int, sb []byte) {
+					defer iwg.Done()
+					verdicts[i] = pc.isolate(self, sb, i)
+				}(i, sb)
+			}
+		}
+		iwg.Wait()
+		for ri, r := range results {
 			b, rerr := os.ReadFile(r.out)
 			if r.err != nil || rerr != nil {
 				// Crash, fatal runtime error or watchdog exit.
 				if sb, e := os.ReadFile(r.out + ".progress.stuck"); e == nil {
-					// Watchdog: re-run in isolation to decide.
-					verdict := pc.isolate(self, sb)
+					verdict := verdicts[ri]
 					switch verdict {
 					case "hang":
 						p := filepath.Join(OutDir(), "replay", fmt.Sprintf("%s-hang-shard%d-s%d.json", id, r.shard, Seed()))
@@ -791,8 +823,8 @@ func mergeResult(t, w *Result) {
 
 // isolate re-runs a watchdog-flagged case alone in a fresh process with a
 // second generous bound.
-func (c *Ctx) isolate(self string, stuck []byte) string {
-	p := filepath.Join(workDir(c.Check.ID), "isolate.json")
+func (c *Ctx) isolate(self string, stuck []byte, k int) string {
+	p := filepath.Join(workDir(c.Check.ID), fmt.Sprintf("isolate-%d.json", k))
 	os.WriteFile(p, stuck, 0o644)
 	cmd := exec.Command(self, c.Check.ID, "--replay", p)
 	done := make(chan error, 1)
